@@ -492,7 +492,7 @@ impl<'a> Parser<'a> {
                         }
                     }
 
-                    if !datetime.extended_date_format {
+                    if datetime.has_date && !datetime.extended_date_format {
                         return Err(self.parse_error("Cannot combine \"basic\" date format with \"extended\" time format (Should be either `YYYY-MM-DDThh:mm:ss` or `YYYYMMDDThhmmss`).".to_string()));
                     }
                 }
